@@ -19,17 +19,33 @@ import (
 	"golang.org/x/tools/go/ssa"
 )
 
+// iteratesContract: the (assumed) contract of an iterating method called by c, or nil. Interface methods carry
+// it as an abstract interface contract, methods of external structs (btree.BTree.Ascend) as an extern contract.
+func (e *Engine) iteratesContract(c *ssa.CallCommon) *FuncContract {
+	if c.IsInvoke() {
+		if ifc := e.ifaceContract(c); ifc != nil && ifc.Flags["iterates"] != "" {
+			return ifc
+		}
+		return nil
+	}
+	if fn, ok := c.Value.(*ssa.Function); ok {
+		if fc := e.contracts.Funcs[fn.String()]; fc != nil && fc.Flags["iterates"] != "" {
+			return fc
+		}
+	}
+	return nil
+}
+
 func (fr *Frame) iterOrdinal(site ssa.Instruction) int {
 	n := len(fr.loops.heads)
 	k := 0
 	for _, b := range fr.fn.Blocks {
 		for _, in := range b.Instrs {
 			ci, ok := in.(ssa.CallInstruction)
-			if !ok || !ci.Common().IsInvoke() {
+			if !ok {
 				continue
 			}
-			ifc := fr.vc.eng.ifaceContract(ci.Common())
-			if ifc == nil || ifc.Flags["iterates"] == "" {
+			if fr.vc.eng.iteratesContract(ci.Common()) == nil {
 				continue
 			}
 			if in == site {
@@ -46,10 +62,8 @@ func (e *Engine) iteratingCalls(fn *ssa.Function) int {
 	k := 0
 	for _, b := range fn.Blocks {
 		for _, in := range b.Instrs {
-			if ci, ok := in.(ssa.CallInstruction); ok && ci.Common().IsInvoke() {
-				if ifc := e.ifaceContract(ci.Common()); ifc != nil && ifc.Flags["iterates"] != "" {
-					k++
-				}
+			if ci, ok := in.(ssa.CallInstruction); ok && e.iteratesContract(ci.Common()) != nil {
+				k++
 			}
 		}
 	}
@@ -73,16 +87,25 @@ func (fr *Frame) iterateCall(site ssa.Instruction, c *ssa.CallCommon, ifc *FuncC
 	if fr.lspec != nil && ord >= 0 {
 		spec = fr.lspec[ord]
 	}
+	recvT := c.Value.Type()
+	mname := ""
+	if c.IsInvoke() {
+		mname = c.Method.Name()
+	} else {
+		sfn := c.Value.(*ssa.Function)
+		recvT = sfn.Signature.Recv().Type()
+		mname = sfn.Name()
+	}
 	var pkg *types.Package
-	if n, ok := c.Value.Type().(*types.Named); ok {
+	if n := namedOf(recvT); n != nil {
 		pkg = n.Obj().Pkg()
 	}
 	sig := c.Signature()
 	// requires of the iterating method
-	env := vc.ifaceEnv(sig, c.Value.Type(), pkg, ifc, args, st, st)
+	env := vc.ifaceEnv(sig, recvT, pkg, ifc, args, st, st)
 	for _, rc := range ifc.Requires {
 		g := env.clause(rc)
-		vc.oblige(st, "requires", fr.name("pre."+c.Method.Name()+"."+rc.Name+"@"+shortPos(pos)), pos, "precondition of "+ifc.Key+": "+rc.Src, g, rc.Props)
+		vc.oblige(st, "requires", fr.name("pre."+mname+"."+rc.Name+"@"+shortPos(pos)), pos, "precondition of "+ifc.Key+": "+rc.Src, g, rc.Props)
 		vc.assume(st, g)
 	}
 	// the elements already yielded, as a ghost set over the literal's first (scalar) argument: visited(x)
@@ -135,7 +158,7 @@ func (fr *Frame) iterateCall(site ssa.Instruction, c *ssa.CallCommon, ifc *FuncC
 	for i := 0; i < csig.Params().Len(); i++ {
 		cargs = append(cargs, vc.havocVal(cur, csig.Params().At(i).Type(), fmt.Sprintf("yield%d", i)))
 	}
-	yenv := vc.ifaceEnv(sig, c.Value.Type(), pkg, ifc, args, cur, pre)
+	yenv := vc.ifaceEnv(sig, recvT, pkg, ifc, args, cur, pre)
 	for i, a := range cargs {
 		yenv.vars[fmt.Sprintf("arg%d", i)] = TV{a, csig.Params().At(i).Type()}
 	}
@@ -151,7 +174,7 @@ func (fr *Frame) iterateCall(site ssa.Instruction, c *ssa.CallCommon, ifc *FuncC
 	// exhausted: the method's `exhausts` clauses hold in the state at the head
 	exh := vc.fresh("iter$exhausted", SBool)
 	if len(ifc.Exhausts) > 0 {
-		henv := vc.ifaceEnv(sig, c.Value.Type(), pkg, ifc, args, head, pre)
+		henv := vc.ifaceEnv(sig, recvT, pkg, ifc, args, head, pre)
 		for _, xc := range ifc.Exhausts {
 			vc.assume(head, mkImplies(exh, henv.clause(xc)))
 		}
@@ -185,9 +208,9 @@ func (fr *Frame) iterateCall(site ssa.Instruction, c *ssa.CallCommon, ifc *FuncC
 	// results of the iterating method itself (none for Range-like methods)
 	var results []Val
 	for i := 0; i < sig.Results().Len(); i++ {
-		results = append(results, vc.havocVal(merged, sig.Results().At(i).Type(), "r$"+c.Method.Name()))
+		results = append(results, vc.havocVal(merged, sig.Results().At(i).Type(), "r$"+mname))
 	}
-	post := vc.ifaceEnv(sig, c.Value.Type(), pkg, ifc, args, merged, pre)
+	post := vc.ifaceEnv(sig, recvT, pkg, ifc, args, merged, pre)
 	bindResults(post, sig, results)
 	untag := vc.withTag('E')
 	for _, ec := range ifc.Ensures {
